@@ -443,7 +443,7 @@ func checkRun(c *ctx, run *plRun, which string) {
 					c.r.Add(Finding{Kind: "violation", Check: "silent-waiter-after-deadline", Detail: fmt.Sprintf("Stop returned %v; accepted batch %d (%s) with a live receiver got silence", run.stopErr, b.id, b.kind), Replay: run.replay()})
 				}
 			}
-			limit := 4*run.deadline + 200*time.Millisecond
+			limit := 4*run.deadline + 450*time.Millisecond // scheduling slack of a loaded machine; an overrun that matters is unbounded or a second and more
 			if run.stopDur > limit {
 				c.r.Add(Finding{Kind: "violation", Check: "stop-deadline-overrun", Detail: fmt.Sprintf("Stop with a %v deadline took %v (limit with slack %v)", run.deadline, run.stopDur, limit), Replay: run.replay()})
 			}
